@@ -104,6 +104,7 @@ type History struct {
 	Lst         []LstSpec
 	Ops         []Op
 	DropProfile bool // restart with a profile that no longer has the Listeners block
+	ParentDeath bool // ends with the death of a direct agent that has one linked child
 }
 
 // ---------------------------------------------------------------------------------------
@@ -569,6 +570,50 @@ func genHistory(seed int64, idx int, thorough bool) *History {
 			if len(lstLive) > 0 {
 				add(Op{K: "ldel", L: pick(lstLive), Via: -1})
 			}
+		}
+	}
+	if idx%3 == 1 {
+		// the last operations: a direct agent that has exactly one linked child dies (exit /
+		// kill date / marked dead in turn); its child goes down with it, in memory and in
+		// the database alike
+		parent, kid := -1, -1
+		var direct, freeKids []int
+		for i := range h.Agents {
+			a := &h.Agents[i]
+			m := sim.Agents[a.Name()]
+			switch {
+			case m == nil && a.Smb:
+				freeKids = append(freeKids, i)
+			case m != nil && m.Active && !a.Smb:
+				direct = append(direct, i)
+				if len(sim.kidsOf(a.Name())) == 1 {
+					parent = i
+				}
+			case m != nil && m.Active && a.Smb && sim.parentOf(a.Name()) == "":
+				freeKids = append(freeKids, i)
+			case m != nil && !m.Active && a.Smb:
+				freeKids = append(freeKids, i)
+			}
+		}
+		if parent < 0 && len(freeKids) > 0 {
+			for _, d := range direct {
+				if len(sim.kidsOf(h.Agents[d].Name())) == 0 {
+					parent, kid = d, freeKids[0]
+					break
+				}
+			}
+			if parent >= 0 {
+				add(Op{K: "connect", A: parent, B: kid, Via: -1})
+			}
+		}
+		if parent >= 0 && len(sim.kidsOf(h.Agents[parent].Name())) == 1 {
+			k := []string{"exit", "killdate", "markdead"}[(idx/3)%3]
+			op := Op{K: k, A: parent, Via: -1}
+			if k != "markdead" {
+				op.Req = nextReq()
+			}
+			add(op)
+			h.ParentDeath = true
 		}
 	}
 	if httpDel {
